@@ -128,7 +128,7 @@ impl Prop for C13 {
         "EXHAUSTIVE: all 256 rectangles (incl. degenerate) and all simple polygons with 3..5 (quick) / 3..6 (thorough) vertices on the 4x4 integer grid, as vertex sequences (so every start vertex and both orientations occur), \
          each queried at all 36 points of the surrounding 6x6 grid; derived variants with a repeated vertex and with an inserted collinear vertex. SEEDED RANDOM: polyomino outlines (<=60 cells, optional kept collinear vertices), \
          their 45-degree chamfered versions, star-shaped general polygons with coordinates up to 1e6, dressed by scale/offset/start-vertex rotation/reversal and queried on every vertex and its 8 neighbours, edge midpoints and neighbours, \
-         points at each vertex's height left/right of and inside the bounding box, random and far points; Manhattan paths (2-12 points, width 1-40). Oracle: exact closed-region membership by integer cross products (refs/geom.rs); \
+         points at each vertex's height left/right of and inside the bounding box, random and far points; Manhattan paths (2-12 points, width 1-40; one in twelve a dot, all points coincident); four neighbouring paths queried in one shuffled stream (an answer may not depend on the previous query). Oracle: exact closed-region membership by integer cross products (refs/geom.rs); \
          for paths: true required inside a segment's own rectangle, false required farther than w/2 from all segments, the end-cap/outer-corner band is counted but not judged. distinct_nontrivial = distinct shapes (vertex sequences) queried."
             .into()
     }
